@@ -86,7 +86,11 @@ def rule_renaming(ctx):
                 sites += 1
                 from astlib import block_tail
                 arms = {render(x["pat"]).replace(" ", ""): render(strip(block_tail(x["body"]) if x["body"]["k"] == "Block" and block_tail(x["body"]) is not None else x["body"])).replace(" ", "") for x in a["r"]["arms"]}
-                ok = scr == "env.get_current_version(%s)" % tgt and re.fullmatch(r'format!\("\{%s\}\.\{version\}"\)' % tgt, arms.get("Some(version)", "")) is not None and arms.get("None") in ("%s.to_string()" % tgt, "%s.clone()" % tgt, tgt)
+                some_arm = [k for k in arms if re.fullmatch(r"Some\((\w+)\)", k)]
+                vb = re.fullmatch(r"Some\((\w+)\)", some_arm[0]).group(1) if len(some_arm) == 1 else "?"
+                fm = arms.get(some_arm[0], "") if some_arm else ""
+                fmt_ok = re.fullmatch(r'format!\("\{%s\}\.\{%s\}"\)' % (tgt, vb), fm) is not None or re.fullmatch(r'format!\("\{\}\.\{\}",%s,%s\)' % (tgt, vb), fm) is not None
+                ok = scr == "env.get_current_version(%s)" % tgt and fmt_ok and arms.get("None") in ("%s.to_string()" % tgt, "%s.clone()" % tgt, tgt)
                 ctx.check(R, "%s/rename[%s]" % (fname, tgt), ok, "%s = match %s { %s }" % (tgt, scr, arms), site(UV, a))
     ctx.floor(R, "renaming sites", sites, 3)
     # Declaration: name replaced by name.version on Some(version)
